@@ -100,16 +100,31 @@ def _swv_over_diff(prog, vals):
     drifts under slice pushdown."""
     L = len(prog["leaves"])
     src = {L + k for k, s in enumerate(prog["stmts"]) if s["op"] == "diff" and int(s.get("n", 1)) >= 2}
-    if not src:
-        return False
+    # the same mechanism written out by the program: a basic slice of an elementwise combination of two
+    # DIFFERENT operands (whose chunkings are unified, and re-unified after the slice is pushed through)
+    from vf.gen import programs as P
 
-    def depends(v, seen):
-        if v in src:
+    def fam(name):
+        o = P.OPS.get(name)
+        return o.family if o is not None else None
+
+    binary = {L + k for k, s in enumerate(prog["stmts"]) if len(set(s["args"])) >= 2 and fam(s["op"]) in ("elemwise2", "setitem")}
+    def reaches(v, targets, seen):
+        if v in targets:
             return True
         if v < L or v in seen:
             return False
         seen.add(v)
-        return any(depends(a, seen) for a in prog["stmts"][v - L]["args"])
+        return any(reaches(a, targets, seen) for a in prog["stmts"][v - L]["args"])
+
+    for k, s in enumerate(prog["stmts"]):
+        if s["op"] in ("getitem", "getitem_list", "take") and binary and reaches(s["args"][0], binary, set()):
+            src.add(L + k)
+    if not src:
+        return False
+
+    def depends(v, seen):
+        return reaches(v, src, seen)
 
     return any(s["op"] in ("sliding_window_view", "swv_reduce") and any(depends(a, set()) for a in s["args"]) for s in prog["stmts"])
 
